@@ -48,10 +48,10 @@ class IndexedModelFunctionFormatter(FunctionFormatter):
         :return: Dictionary containing argument name and format pairs.
         """
         if format_as_latex:
-            _par_name_string_dict = {_af.name: _af.latex_name for _af in self.arg_formatters}
+            _par_name_string_dict = {_af.arg_name: _af.latex_name for _af in self.arg_formatters}
             _par_name_string_dict[self.index_name] = self.latex_index_name
         else:
-            _par_name_string_dict = {_af.name: _af.name for _af in self.arg_formatters}
+            _par_name_string_dict = {_af.arg_name: _af.name for _af in self.arg_formatters}
             _par_name_string_dict[self.index_name] = self.index_name
         return _par_name_string_dict
 
